@@ -80,6 +80,7 @@ fn required(plan: &Plan) -> Vec<String> {
         "op:reserve_items".into(),
         "op:reserve_regions".into(),
         "op:stack-reserve".into(),
+        "foreign-push:refused".into(),
     ];
     for d in plan.reg {
         v.push(format!("entry:{}", d.label));
@@ -281,6 +282,27 @@ fn random_history<E: Entry>(ctx: &mut Ctx, long: bool) {
             }
             if bad {
                 break;
+            }
+        }
+    }
+    // a trained coded region finally receives values foreign to its statistics: it may refuse
+    // them (C06 / C07; the history ends there), but an index it does return is an issued index
+    // like any other - it reads the pushed item, and the earlier ones are untouched
+    if trained && !ctx.failed {
+        let foreign = gen_pool::<E>(ctx, Dom::new(Kind::Hostile), 3);
+        for v in &foreign {
+            let form = ctx.rng.below(nforms);
+            match live.try_push(ctx, v, form) {
+                Ok(_) => {
+                    ctx.cover("foreign-push:accepted");
+                    if !live.check_all(ctx, Lvl::BASIC, "stability") {
+                        break;
+                    }
+                }
+                Err(_) => {
+                    ctx.cover("foreign-push:refused");
+                    break;
+                }
             }
         }
     }
